@@ -779,6 +779,25 @@ def defaultCategory (db : Db) (u : Sym) : Option Sym :=
     if r.defaultCat != 0 then some r.defaultCat
     else if (db.catByName r.qtype).isSome then some r.qtype else none
 
+/-- the second argument of the public classmethod `ConvertFractionValue`: a quantity-type string
+(ignored by the code: the quantity is rebuilt from `from_unit`) or a `Quantity` object -/
+inductive QArg
+  | qtype (s : Sym)
+  | quantity (q : Qty)
+deriving DecidableEq, Repr
+
+/-- `FractionScalar.ConvertFractionValue(fv, quantity, from_unit, to_unit)` called directly.  A string
+becomes `ObtainQuantity(from_unit)` (the default category of `from_unit`); of a Quantity object only the
+categories are used: the conversion source is `ObtainQuantity(from_unit, quantity.GetComposingCategories())`,
+whatever unit the object itself is in. -/
+def convertFractionValue (db : Db) (qa : QArg) (fromU toU : Sym) (fv : FV) : Except ErrKind FV :=
+  match qa with
+  | .qtype _ =>
+    match defaultCategory db fromU with
+    | none => .error .units
+    | some c => convertFV db c fromU toU fv
+  | .quantity q => convertFV db q.cat fromU toU fv
+
 /-- `UnitDatabase.Convert(cq, from_unit, to_unit, fraction_value)`: the conversion registered by
 `RegisterFractionScalarConversion`; the quantity is the one of `from_unit`'s default category -/
 def dbConvertFV (db : Db) (cq fromU toU : Sym) (fv : FV) : Except ErrKind FV :=
